@@ -295,6 +295,8 @@ pub fn build(t: &Term, w: &W) -> O {
     "observe_on" => i0().observe_on(schedulers::new_thread_scheduler()),
     "subscribe_on" => i0().subscribe_on(schedulers::new_thread_scheduler()),
     "interval" => observables::interval(Duration::from_millis(a as u64), schedulers::new_thread_scheduler()).map(|x| x as i64),
+    // interval on the default scheduler: blocks the subscribing thread inside subscribe()
+    "interval_sync" => observables::interval(Duration::from_millis(a as u64), schedulers::default_scheduler()).map(|x| x as i64),
     "timer" => {
       let v = t.b;
       observables::timer(Duration::from_millis(a as u64), schedulers::new_thread_scheduler()).map(move |_| v)
